@@ -25,10 +25,22 @@ HOOK_FILE = "lsp/jsonrpc2/verifhook_on.go"
 HOOK_CALLS = ['verifPending(c, "reg"', 'verifPending(c, "del"', 'verifPending(c, "disp"', 'verifWrite(c, "wbeg"', 'verifWrite(c, "wend"']
 
 
+def tla_id(i):
+    if not re.fullmatch(r"[A-Za-z0-9 _.+%-]*", i["v"]):
+        raise vlib.InfraError("catalogue id text %r is not in the TLA-safe spelling" % i["v"])
+    return '[t |-> "%s", v |-> "%s", n |-> %s]' % (i["t"], i["v"], "NoNum" if i["n"] == -1000 else ("0 - %d" % -i["n"] if i["n"] < 0 else str(i["n"])))
+
+
 def catalogue_module(rows):
-    ents = ",\n".join('  [kind |-> "%s", idk |-> "%s", blen |-> %d, rlen |-> %d]' % (r["kind"], r["idk"], r["blen"], r["rlen"])
+    ents = ",\n".join('  [kind |-> "%s", idk |-> "%s", id |-> %s, blen |-> %d, rlen |-> %d]' % (r["kind"], r["idk"], tla_id(r["id"]), r["blen"], r["rlen"])
                       for r in rows)
     return ("-------------------------- MODULE FramingCatalogue --------------------------\n"
+            "(* Byte and rune lengths and typed ids of the JSON bodies of the harness's message catalogue (harness/c18:\n"
+            "   catalogue()).  This file holds the values measured at the pinned commit; the check regenerates it\n"
+            "   in its scratch directory from `c18 catalogue` on every run, so that wire position i of the model is\n"
+            "   byte i of the real frame.  Id texts are in the harness's tlaSafe spelling (%XX for other bytes).   *)\n"
+            "LOCAL INSTANCE Integers\n"
+            "LOCAL NoNum == 0 - 1000\n"
             "CatalogueMsgs == <<\n" + ents + "\n>>\n"
             "=============================================================================\n")
 
